@@ -10,7 +10,6 @@ input.  Violations are keyed ``C08/<Class>/<position-or-option>/<ExceptionType |
 | marshal-mismatch>``.
 """
 
-import copy
 import itertools
 import random
 import re
@@ -228,18 +227,52 @@ class Monitor:
     # -- attribution of an escaping exception -------------------------------------------------------
     def _raises(self, spec, wire, etype):
         try:
-            self.klass[spec.name].parse(copy.deepcopy(wire))
+            self.klass[spec.name].parse(G.clone(wire))
         except self.allowed:
             return False
         except Exception as e:
             return type(e) is etype
         return False
 
+    def valid_opt_value(self, spec, o):
+        if o.typ == "enc_algo":
+            return "cryptobox"
+        if o.typ == "enc_key":
+            return "k"
+        if o.typ == "enc_serializer":
+            return "cbor"
+        if o.typ == "roles":
+            return {o.roles[0]: {}}
+        return first_nonempty(G.pool(spec, o))
+
     def attribute(self, spec, wire, etype):
+        """Name of the option/position responsible for an escaping exception (delta debugging against a
+        valid value): first the places the oracle itself does not judge 'ok', then every option, every position."""
         if type(wire) is not list:
             return "envelope"
-        # 1. options (table order, then unknown keys)
-        if spec.dictpos is not None and len(wire) > spec.dictpos and type(wire[spec.dictpos]) is dict:
+        has_dict = spec.dictpos is not None and len(wire) > spec.dictpos and type(wire[spec.dictpos]) is dict
+        # 0. places the oracle flags: replace by a valid value
+        for where, _, _ in G.offenders(spec, wire):
+            w = list(wire)
+            if "." in where and has_dict:
+                key = where.split(".", 1)[1]
+                o = spec.opt_by_key.get(key)
+                if o is None:
+                    continue
+                w[spec.dictpos] = dict(wire[spec.dictpos])
+                w[spec.dictpos][key] = self.valid_opt_value(spec, o)
+            else:
+                idx = None
+                for i, p in enumerate(spec.layout):
+                    if p.name == where and p.kind != "dict":
+                        idx = i + 1
+                        w[idx] = NEUTRAL[p.kind]
+                if idx is None or idx >= len(wire):
+                    continue
+            if not self._raises(spec, w, etype):
+                return where
+        # 1. options (table order, then unknown keys): delete
+        if has_dict:
             d = wire[spec.dictpos]
             keys = [o.key for o in spec.opts if o.key in d] + [k for k in d if k not in spec.opt_by_key]
             for k in keys:
@@ -249,6 +282,12 @@ class Monitor:
                     w[spec.dictpos]["roles"] = {spec.opt_by_key["roles"].roles[0]: {}}
                 if not self._raises(spec, w, etype):
                     return "%s.%s" % (spec.dictname, k if type(k) is str else "<non-str-key>")
+            # 1b. the payload-transparency keys form a unit
+            if spec.payload and any(k in d for k in ("enc_algo", "enc_key", "enc_serializer")):
+                w = list(wire)
+                w[spec.dictpos] = {a: b for a, b in d.items() if a not in ("enc_algo", "enc_key", "enc_serializer")}
+                if not self._raises(spec, w, etype):
+                    return "%s.enc_algo" % spec.dictname
         # 2. fixed positions
         for i, p in enumerate(spec.layout):
             idx = i + 1
@@ -283,7 +322,7 @@ class Monitor:
             R.count("must_reject_inputs")
         replay = {"kind": "parse", "class": spec.name, "wire": G.jenc(wire), "label": label, "skeleton": skel}
         try:
-            msg = self.klass[spec.name].parse(copy.deepcopy(wire))
+            msg = self.klass[spec.name].parse(G.clone(wire))
         except self.allowed as e:
             R.count("parse_rejected")
             R.seen("reasons", "%s|%s" % (spec.name, re.sub(r"[0-9'\"<>]+.*", "", str(e))[:60]))
@@ -341,7 +380,7 @@ class Monitor:
                 # the skeleton itself must be accepted and re-marshal equivalently (harness self-check)
                 if n % parts == part:
                     try:
-                        self.klass[spec.name].parse(copy.deepcopy(wire))
+                        self.klass[spec.name].parse(G.clone(wire))
                         R.count("skeletons_accepted")
                     except Exception as e:
                         R.count("skeletons_rejected")
@@ -484,7 +523,7 @@ class Monitor:
                 R.count("evaluations")
                 R.count("validator_calls")
                 try:
-                    fn(copy.deepcopy(v), "t")
+                    fn(G.clone(v), "t")
                     acc = True
                 except self.allowed:
                     acc = False
